@@ -148,6 +148,11 @@ func runFlowCase(c *vf.Ctx, fc *flowCase) *flowResult {
 				s.Rules = append(s.Rules, pgen.Rule{JobPrefix: "TOP/" + pre + "FA/", Bools: ab[0]}, pgen.Rule{JobPrefix: "TOP/" + pre + "FB/", Bools: ab[1]})
 			}
 		}
+		if fc.Template == 22 {
+			// skeleton 21: three rows, the last one empty (MKW_E) resp. null (MKW_N)
+			s.LenChoices, s.Len1Choices, s.PNull = []int{3}, []int{1, 2}, 0
+			s.Rules = append(s.Rules, pgen.Rule{JobPrefix: "TOP/MKW_E/", LastRow: "empty"}, pgen.Rule{JobPrefix: "TOP/MKW_N/", LastRow: "null"})
+		}
 		if fc.Template == 20 && len(s.LenChoices) == 0 {
 			s.LenChoices, s.Len1Choices = []int{2, 3}, []int{1, 2} // skeleton 19: non-empty grids
 		}
